@@ -11,8 +11,9 @@
 (*          indexing positions of rhs                                      *)
 (*   cond = [on |-> FALSE] | [on |-> TRUE, lhs |-> param, op, rhs, pat]    *)
 (*          op in "==", "!=", "~~", "!~"; for the match operators `pat` is *)
-(*          [k |-> "exact", s] (the regex ^s$) or [k |-> "class", set]     *)
-(*          (the regex ^[..]$ over one-character names)                    *)
+(*          [k |-> "exact", s] (the regex ^s$), [k |-> "class", set] (the  *)
+(*          regex ^[..]$ over one-character names) or [k |-> "contains",   *)
+(*          chars] (the unanchored regex that is that plain text)          *)
 (*   expr = [k |-> "t" | "nt" | "param", n, sel]                           *)
 (*        | [k |-> "macro", n, args : Seq(expr), sel]                      *)
 (*        | [k |-> "rep", op : "*" | "+" | "?", s : expr, sel]             *)
@@ -56,15 +57,22 @@ Subst(e, env) ==
     [] e.k = "group" -> [e EXCEPT !.syms = [i \in DOMAIN e.syms |-> Subst(e.syms[i], env)]]
     [] OTHER         -> e
 
-PatMatch(pat, s) == IF pat.k = "exact" THEN s = pat.s
-                    ELSE \E i \in DOMAIN pat.set : pat.set[i] = s
-CondHolds(cond, env) ==
+(* `~~` is a regex *search* in the text of the argument (unanchored unless the pattern says so).  Patterns:
+   exact  ^s$ ; class  ^[..]$ over one-character names ; contains  the plain text pat.chars anywhere in the
+   argument (tchars gives the characters of every terminal's text, TLC cannot index strings) *)
+CharsOf(tchars, s) == tchars[CHOOSE i \in DOMAIN tchars : tchars[i].n = s].cs
+Contains(cs, pc) == \E i \in 0..(Len(cs) - Len(pc)) : SubSeq(cs, i + 1, i + Len(pc)) = pc
+PatMatch(tchars, pat, s) ==
+  IF pat.k = "exact" THEN s = pat.s
+  ELSE IF pat.k = "contains" THEN Contains(CharsOf(tchars, s), pat.chars)
+  ELSE \E i \in DOMAIN pat.set : pat.set[i] = s
+CondHolds(tchars, cond, env) ==
   IF ~cond.on THEN TRUE
   ELSE LET s == Lookup(env, cond.lhs).n IN     \* the argument must be a quoted terminal
        CASE cond.op = "==" -> s = cond.rhs
          [] cond.op = "!=" -> s # cond.rhs
-         [] cond.op = "~~" -> PatMatch(cond.pat, s)
-         [] cond.op = "!~" -> ~PatMatch(cond.pat, s)
+         [] cond.op = "~~" -> PatMatch(tchars, cond.pat, s)
+         [] cond.op = "!~" -> ~PatMatch(tchars, cond.pat, s)
 
 ItemOf(sugar, n) == sugar.items[CHOOSE i \in DOMAIN sugar.items : sugar.items[i].name = n]
 
@@ -78,7 +86,7 @@ Def(sugar, e) ==
   CASE e.k = "macro" ->
          LET it == ItemOf(sugar, e.n)
              env == [i \in DOMAIN it.params |-> <<it.params[i], e.args[i]>>]
-             keep == SelectSeq(it.alts, LAMBDA a : CondHolds(a.cond, env))
+             keep == SelectSeq(it.alts, LAMBDA a : CondHolds(sugar.tchars, a.cond, env))
          IN [j \in DOMAIN keep |-> [lhs |-> me, rhs |-> [i \in DOMAIN keep[j].rhs |-> Subst(keep[j].rhs[i], env)],
                                     P |-> keep[j].P, kind |-> it.kind]]
     [] e.k = "rep" /\ e.op = "+" ->
